@@ -70,6 +70,10 @@ func (context *CHFContext) AddChfUeToUePool(ue *ChfUe, supi string) {
 
 // Allocate CHF Ue with supi and add to chf Context and returns allocated ue
 func (context *CHFContext) NewCHFUe(supi string) (*ChfUe, error) {
+	// lookup and insertion are one step: concurrent first requests of a subscriber must share one context
+	context.Lock()
+	defer context.Unlock()
+
 	if ue, ok := context.ChfUeFindBySupi(supi); ok {
 		return ue, nil
 	}
